@@ -170,6 +170,11 @@ pub fn configs(tier: Tier) -> Vec<Config> {
         out.push(Config { charw: big, charn: 1, typew: big, typen: 1, dict: vec![], bucket: 1, solver: 5 });
         out.push(Config { charw: big, charn: 3, typew: big, typen: 3, dict: vec![], bucket: 1, solver: 1 });
     }
+    // a HUGE dictionary (300 000 distinct six-letter words: the model is several MB, its decoded form tens of MB)
+    {
+        let words: Vec<String> = (0..300_000usize).map(|i| { let mut k = i; (0..6).map(|_| { let c = (b'c' + (k % 20) as u8) as char; k /= 20; c }).collect() }).collect();
+        out.push(Config { charw: 2, charn: 2, typew: 2, typen: 2, dict: words, bucket: 3, solver: 1 });
+    }
     // degenerate dictionary entries: the empty word (alone, first, last), a word repeated, a word that is
     // a single non-BMP character, white space only
     for d in [vec![""], vec!["", "ab"], vec!["ab", ""], vec!["ab", "ab"], vec!["𠀋"], vec![" "], vec!["a", "", "a"]] {
@@ -193,7 +198,11 @@ pub fn run(tier: Tier) -> ! {
     chk.set("corpora", json!(cps.iter().map(|c| c.name.clone()).collect::<Vec<_>>()));
     let models = std::sync::atomic::AtomicU64::new(0);
     cfgs.par_iter().for_each(|cfg| {
-        for corpus in &cps {
+        for corpus in cps.iter() {
+            // the huge dictionary with two ordinary corpora only (cost)
+            if cfg.dict.len() > 1000 && !["untagged", "tagged-1cat"].contains(&corpus.name.as_str()) {
+                continue;
+            }
             chk.eval(1);
             let (t, v) = check_case(cfg, corpus, &texts);
             if t {
